@@ -11,7 +11,7 @@ from cloudsync.sync.manager import FINISHED, PUNT, REQUEUE
 from cloudsync.types import DIRECTORY, FILE, IgnoreReason
 
 
-@lemma(props=["C02", "C03"], configs="sides")
+@lemma(props=["C02", "C03", "C04"], configs="sides")
 def hash_diff_never_uploads_over_deleted_peer(w: World):
     """L2.2: new content is never uploaded over a deleted peer; the upload becomes a create"""
     mgr = w.mgr
@@ -54,7 +54,7 @@ def delete_synced_effects(w: World):
     check(r == FINISHED or r == PUNT, "returns FINISHED or PUNT")
 
 
-@lemma(props=["C02", "C04"], configs="sides", raises=["Exception"])
+@lemma(props=["C02", "C04", "C03"], configs="sides", raises=["Exception"])
 def delete_never_wins_over_pending_create(w: World):
     """L2.1: a deletion is not propagated while another live entry at the same path is a pending creation
     on the other side (a newer edit / recreate): no provider call at all, the delete entry is discarded"""
@@ -74,7 +74,7 @@ def delete_never_wins_over_pending_create(w: World):
     check(sync.is_discarded, "the deletion entry is discarded")
 
 
-@lemma(props=["C02", "C03", "C12"], configs="sides", raises=["Exception"],
+@lemma(props=["C02", "C03", "C12", "C04"], configs="sides", raises=["Exception"],
        stubs={"cloudsync.sync.manager:SyncManager.handle_split_conflict": {"results": ["True", "False"]}})
 def upload_synced_effects(w: World):
     """L3.1/L3.2: uploading changed content writes only to the synced side, only by upload to the entry's own peer
@@ -103,7 +103,7 @@ def upload_synced_effects(w: World):
         check(sync[synced].sync_path is not None or info.path is None, "synced side has a sync_path")
 
 
-@lemma(props=["C02"], configs="sides")
+@lemma(props=["C02", "C03", "C04"], configs="sides")
 def handle_corrupt_effects(w: World):
     """L2.4: a corrupt (unreadable) copy is frozen: no provider call, one SYNC_CORRUPT_IGNORED notification, that side
     is marked CORRUPT and synced-as-is (so it is not copied), the other side is marked changed so that the good copy
@@ -222,7 +222,7 @@ EMBRACE_STUBS = {
 }
 
 
-@lemma(props=["C02", "C03", "C12"], configs="sides", raises=["Exception"],
+@lemma(props=["C02", "C03", "C12", "C04"], configs="sides", raises=["Exception"],
        stubs={"cloudsync.sync.manager:SyncManager.delete_synced": {},
               "cloudsync.sync.manager:SyncManager.handle_changed_is_missing": {},
               "cloudsync.sync.manager:SyncManager.handle_path_change_or_creation": {},
@@ -407,7 +407,7 @@ def pre_sync_rereads_both_sides(w: World):
         check(len(provider_writes()) == 0, "without any provider write")
 
 
-@lemma(props=["C02", "C14"], configs="sides", raises=["Exception"], fixed_clock=True)
+@lemma(props=["C02", "C14", "C10"], configs="sides", raises=["Exception"], fixed_clock=True)
 def get_latest_flags_unseen_changes(w: World):
     """L14.3: re-reading a side from its provider records what is there now -- and an unseen content or path change
     marks that side changed (so that a delete on the other side cannot win over it); a vanished object becomes a
@@ -440,7 +440,7 @@ def get_latest_flags_unseen_changes(w: World):
         check(ent[side].hash == h0 and ent[side].path == p0, "hash and path of a vanished object are kept")
 
 
-@lemma(props=["C04", "C03", "C11"], configs="sides", raises=["Exception"], opaque=["nps"])
+@lemma(props=["C04", "C03", "C11", "C02"], configs="sides", raises=["Exception"], opaque=["nps"])
 def children_follow_a_renamed_folder(w: World, prior: str, path: str, rel: str):
     """L4.4: when a folder's path changes, each child keeps its position relative to the folder: its path becomes
     join(new folder path, relative path) and its last-synced path is re-rooted the same way"""
@@ -468,7 +468,7 @@ def children_follow_a_renamed_folder(w: World, prior: str, path: str, rel: str):
 
 
 
-@lemma(props=["C04", "C02"], configs="sides", raises=["Exception"])
+@lemma(props=["C04", "C02", "C03"], configs="sides", raises=["Exception"])
 def non_empty_folder_delete_waits(w: World):
     """L4.5: a folder whose deletion was refused because it is not empty is only reported finished after it was
     punted at least once (priority > 0) and no known child still needs syncing; the engine itself deletes nothing here"""
@@ -486,7 +486,7 @@ def non_empty_folder_delete_waits(w: World):
         check(c.side == synced, "only the synced side is listed")
 
 
-@lemma(props=["C05"], configs="none", raises=["CloudTemporaryError"])
+@lemma(props=["C05", "C02"], configs="none", raises=["CloudTemporaryError"])
 def safe_call_resolver_table(w: World):
     """L5.1: decision table of the resolver wrapper.  Directory-vs-file: the directory handle wins with keep=True and
     the resolver is not called.  Otherwise the resolver is called exactly once with the two handles; a well-formed
@@ -516,7 +516,7 @@ def safe_call_resolver_table(w: World):
             check(ret[0] is f1 and ret[1] is True, "no usable answer: the remote version wins and the local one is kept")
 
 
-@lemma(props=["C03", "C05"], configs="none", raises=["Exception"],
+@lemma(props=["C03", "C05", "C02", "C04"], configs="none", raises=["Exception"],
        stubs={"cloudsync.sync.manager:SyncManager.embrace_change": {},
               "cloudsync.sync.manager:SyncManager.handle_hash_conflict": {"results": ["None"]},
               "cloudsync.sync.manager:SyncManager.path_conflict": {"results": ["False"], "raises": False, "havoc": False},
